@@ -366,6 +366,16 @@ impl Check for C04 {
                         let path = PathSpec::new(vec![POp::M(a.0, a.1), POp::Q(b.0, b.1, c.0, c.1)]);
                         account(run, 7000 + s, l, &path, &st, &xf, false);
                     }
+                    // the same device geometry from user units k times larger under scale 1/k (width scaled too)
+                    for k in [50.0f32, 0.02] {
+                        if q && (s + cap as usize) % 2 == 0 {
+                            continue;
+                        }
+                        let xf: Xf = [1.0 / k, 0., 0., 1.0 / k, 0., 0.];
+                        let path = PathSpec::new(vec![POp::M(a.0 * k, a.1 * k), POp::Q(b.0 * k, b.1 * k, c.0 * k, c.1 * k)]);
+                        let stk = StyleSpec { width: 4.0 * k, ..st.clone() };
+                        account(run, 7000 + s, l, &path, &stk, &xf, false);
+                    }
                     if !q {
                         for d in &cp {
                             let path = PathSpec::new(vec![POp::M(a.0, a.1), POp::C(b.0, b.1, c.0, c.1, d.0, d.1)]);
